@@ -38,8 +38,8 @@ Ltac spec := repeat match goal with
   | H : false = true -> _ |- _ => clear H
   end.
 Ltac conj := repeat match goal with H : _ /\ _ |- _ => destruct H end.
-Ltac fin1 := dk; unfold L1; unf; cbn; gifs; cbn; repeat split; intros; try discriminate; spec; conj;
-  try discriminate; try lia.
+Ltac fin1 := dk; unfold L1; unf; cbn; gifs; cbn; repeat split; intros; try discriminate; try assumption; spec; conj;
+  try discriminate; try assumption; try lia.
 
 Lemma L1_step_io p s r res s' l : L1 p s -> step_io p s r res = Some (s', l) -> L1 p s'.
 Proof.
@@ -62,4 +62,25 @@ Proof.
   all: split_ifs E; try discriminate; try inv_some.
   all: fin1.
   all: try (idtac "left"; fail).
+Qed.
+
+Lemma L1_step p s c s' l : L1 p s -> step p s c = Some (s', l) -> L1 p s'.
+Proof.
+  destruct c as [r res|r|b|a]; cbn [step].
+  - apply L1_step_io.
+  - apply L1_step_w.
+  - intros H E. ds s. unfold step_tail in E. cbn in E.
+    split_ifs E; try discriminate; inv_some; exact H.
+  - intros H E. ds s. destruct a; cbn in E; split_ifs E; try discriminate; inv_some; exact H.
+Qed.
+
+Theorem L1_all p sched : L1 p (run p sched).
+Proof. unfold run. apply invariant_rule. apply L1_init. intros; eapply L1_step; eauto. Qed.
+
+(* the exclusion the unlocked flush relies on *)
+Theorem io_unlocked_excludes_producer p sched :
+  io_unl (io (run p sched)) = true -> w_active (wk (run p sched)) = false.
+Proof.
+  intros H. destruct (L1_all p sched) as (Ha & _ & Hu & _).
+  destruct (w_active (wk (run p sched))); auto. specialize (Ha eq_refl). specialize (Hu H). lia.
 Qed.
